@@ -1004,7 +1004,8 @@ coap_op_dyn_resource_added(coap_session_t *session,
 
   (void)user_data;
 
-  fp_orig = fopen((const char *)context->dyn_resource_save_file->s, "a");
+  /* a+: create the file if it does not exist, read from its beginning */
+  fp_orig = fopen((const char *)context->dyn_resource_save_file->s, "a+");
   if (fp_orig == NULL)
     return 0;
 
